@@ -557,7 +557,7 @@ def _yield_sites(stmts, depth=0, last_in_loop=True, out=None):
     return out
 
 
-def splice_generator_loop(h, binding, loop, caller_names, tag, nonnull=None, max_sites=24):
+def splice_generator_loop(h, binding, loop, caller_names, tag, nonnull=None, max_sites=24, names_outside_loop=None):
     """`for T in h(args): BODY`  ->  h's body with every `yield e` replaced by `T = e; BODY`; None if outside the fragment:
     h's yields are statements; BODY has no `break`; a top-level `continue` in BODY needs every yield to end its loop body"""
     if loop.orelse:
@@ -628,13 +628,24 @@ def splice_generator_loop(h, binding, loop, caller_names, tag, nonnull=None, max
             pairs = [(t.id, v) for t, v in zip(loop.target.elts, y.elts)]
         new_body = [copy.deepcopy(b) for b in loop.body]
         pre_assign = []
+        # loop variables that the body re-binds get their own name per spliced copy (unless they are read after the loop)
+        if pairs is not None:
+            rebound = [nm for nm, _ in pairs if nm in body_stored and nm not in (names_outside_loop or set())]
+            if rebound:
+                site_no = len([1 for s_ in sites if s_[1] <= i and s_[0] is lst]) + id(lst) % 97
+                ren = {nm: f"{nm}__{tag}y{sites.index((lst, i, d, last))}" for nm in rebound}
+                new_body = [_Rename(ren, {}).visit(b_) for b_ in new_body]
+                pairs = [(ren.get(nm, nm), v) for nm, v in pairs]
+                body_stored_here = (body_stored - set(rebound)) | set(ren.values())
+            else:
+                body_stored_here = body_stored
         if pairs is None:
             pre_assign = [ast.Assign(targets=[copy.deepcopy(loop.target)], value=y, lineno=getattr(loop, "lineno", 0), col_offset=0)]
         else:
             sub = {}
             for nm, v in pairs:
                 uses = sum(1 for b_ in new_body for x in ast.walk(b_) if isinstance(x, ast.Name) and x.id == nm and isinstance(x.ctx, ast.Load))
-                if nm not in body_stored and (_pure(v) or isinstance(v, ast.Constant) or uses <= 1):
+                if nm not in body_stored_here and (_pure(v) or isinstance(v, ast.Constant) or uses <= 1):
                     sub[nm] = v
                 else:
                     pre_assign.append(ast.Assign(targets=[ast.Name(id=nm, ctx=ast.Store())], value=v, lineno=getattr(loop, "lineno", 0), col_offset=0))
@@ -674,7 +685,13 @@ def inline_new_helpers(repo, new_funcs, resolve_helper, bind_args, max_rounds=2)
                             b = bind_args(h, skip, st.iter)
                             if b is not None:
                                 counter[0] += 1
-                                rep = splice_generator_loop(h, b, st, caller_names, f"g{counter[0]}", nonnull=nonnull_names(repo, f))
+                                outside = set()
+                                for x in ast.walk(f.node):
+                                    if isinstance(x, ast.Name):
+                                        outside.add((x.id, id(x)))
+                                inside = {id(x) for x in ast.walk(st)}
+                                outside = {nm for nm, i_ in outside if i_ not in inside}
+                                rep = splice_generator_loop(h, b, st, caller_names, f"g{counter[0]}", nonnull=nonnull_names(repo, f), names_outside_loop=outside)
                                 if rep is not None:
                                     for x in rep:
                                         caller_names.update(_used_names(x))
